@@ -25,7 +25,7 @@ rm -f "$DEST/$(basename $DEMO)"
 echo "== pinned suite WITH change"
 go test -vet=off -count=1 ./... > "$W/suite.log" 2>&1; RS=$?; echo "exit=$RS"; grep -v "^ok\|no test files" "$W/suite.log" | tail -5; clean_fixtures
 echo "== check $P $TIER against the changed tree"
-rsync -a --exclude .git /verif/ "$W/verif/"
+rsync -a --exclude .git "${VERIF_SRC:-/verif}/" "$W/verif/"
 rm -rf "$W/verif/replays"
 ( cd "$W/verif" && VERIF_REPO="$W/repo" bin/check $P $TIER ) > "$W/check.log" 2>&1; RC=$?
 grep "VIOLATION\|KNOWN-FINDING" "$W/check.log"; echo "check exit=$RC"
